@@ -1,7 +1,7 @@
 """Registry: per property, the harnesses (solver queries), bounds and what lies outside them."""
 from .kani import H
 from .gentypes import gen_types
-from . import genpages, genframes
+from . import genpages, genframes, pagesmt
 from .regexshim import obligation_regex_validation
 
 
@@ -266,7 +266,7 @@ def _c14():
         "pb": ("blank sizes + 12x8 with one stored page", [0, 1, 2, 4, 6, 7], [16], 18),
         "pc": ("30x7 with 32 of 48 bytes buffered + 30x7 with one stored page and a full 48-byte buffer", [0, 4], [16], 50),
     }
-    quick = {"pa_k0", "pa_k1", "pa_k4", "pa_k7", "pa_d16", "pb_k0", "pb_k4", "pb_d16"}
+    quick = {"pa_k0", "pa_k1", "pa_k4", "pa_k7", "pa_d16", "pb_k0", "pb_k1", "pb_k2", "pb_k4", "pb_d16"}
     for p, (desc, kinds, datas, sz) in pairs.items():
         rules = [("state_index|op_index|index_of", 15), ("bytes_eq|old_pages_kept|snap", sz + 18), memcmp(sz + 18)]
         for k in kinds:
@@ -430,6 +430,8 @@ def _c06():
         ["gen_pages::c06_"],
         _page_specs(C06_FAMS, "C06"),
         generators=[genpages.gen_pages],
+        obligations=[pagesmt.obligation("C06")],
+        technique_extra=" + SMT over the nightly MIR of the page index arithmetic for ALL u32 dimensions/coordinates (own MIR->SMT-LIB translator, cvc5 --solve-bv-as-int=sum, z3 cross-check)",
     )
 
 
@@ -444,6 +446,8 @@ def _c07():
         ["gen_pages::c07_"],
         _page_specs(C07_FAMS, "C07"),
         generators=[genpages.gen_pages],
+        obligations=[pagesmt.obligation("C07")],
+        technique_extra=" + SMT over the nightly MIR of the page size/index arithmetic for ALL u32 dimensions/coordinates (own MIR->SMT-LIB translator, cvc5 --solve-bv-as-int=sum, z3 cross-check)",
     )
 
 
@@ -459,18 +463,34 @@ def fr_rules(n):
         (r"run_utf8_validation\.1$", 2),
         ("run_utf8_validation", 6),
         ("from_ascii_bytes_radix|from_str_radix", 6),
-        ("Chunks", n + 3),
-        ("fold", n + 8),
-        ("to_bytes", n + 8),
+        # generous: any loop of the codec over the text or the payload stays within the text length
+        ("Chunks", ln + 3),
+        ("fold", ln + 3),
+        ("to_bytes|from_bytes|payload|checksum|parse_hex|flipdot_core::frame", ln + 3),
         ("ref_shape_end|ref_decode|ref_encode|frames::|bytes_eq|lemma_", ln + 3),
         memcmp(ln + 3),
         ("str_eq|span_by_name|Captures", 16),
-        ("from_iter|extend|collect|spec_", n + 3),
+        ("from_iter|extend|collect|spec_", ln + 3),
     ]
 
 
 def _lemma_r(quick_names):
     hs = []
+    for l in (12, 13):
+        hs.append(
+            H(
+                "gen_frames::r_exact%d" % l,
+                "Lemma R for every byte string of exactly %d bytes (cheap even when the pattern is not anchored: catches a dropped ^ or $)" % l,
+                tier="quick",
+                unwind=l + 3,
+                unwindset=[("str_eq|group_index|bytes_eq", 16)],
+                params={"len": l},
+                timeout=1500,
+                mem_gb=30,
+                mem_expect=4,
+                lemma="R",
+            )
+        )
     for nm, lmax, tq, to, mem in [("r_upto16", 16, "quick", 600, 4), ("r_upto32", 32, "quick", 900, 4), ("r_upto64", 64, "quick", 1500, 6), ("r_upto140", 140, "thorough", 5400, 16)]:
         hs.append(
             H(
@@ -486,7 +506,7 @@ def _lemma_r(quick_names):
                 lemma="R",
             )
         )
-    for l in genframes.R_EXACT_T:
+    for l in [x for x in genframes.R_EXACT_T if x > 13]:
         hs.append(
             H(
                 "gen_frames::r_exact%d" % l,
@@ -689,3 +709,221 @@ def _c02():
 PROPS["C01"] = _c01()
 PROPS["C02"] = _c02()
 PROPS["C03"] = _c03()
+
+
+# ------------------------------------------------------------------------------------------- C09 / C10 / C11
+CTL_STUBS = ["alloc::fmt::format (std::fmt::format) -> returns String::new(): only the text of SignError::UnexpectedResponse is lost"]
+CTL_ASSUME = COMMON_ASSUME + [
+    "oracle: ctl::RefCtl, a flat state machine transcribed from the doc comments of ensure_unconfigured / send_data / switch_page / send_pages / configure_if_needed in src/sign.rs",
+    "the bus is the harness-side ctl::SymBus behind the real Rc<RefCell<dyn SignBus>>; instantiations SymBus<1,16> (configuration) and SymBus<P,ILEN> (pages)",
+    "controller address symbolic (all 65536), sign type symbolic over all supported types",
+]
+
+
+def ctl_rules(ilen):
+    return [memcmp(ilen + 4), ("data_ok|config_item|bytes_eq|run_pages", ilen + 4), ("to_vec|extend|spec_", ilen + 4)]
+
+
+def ctl_h(name, desc, tier="quick", ilen=16, p=1, timeout=3000, mem=8, **params):
+    return H(name, desc, tier=tier, unwind=max(5, p + 2, (ilen + 15) // 16 + 2), unwindset=ctl_rules(ilen), params=params, timeout=timeout, mem_gb=24, mem_expect=mem)
+
+
+def _c09():
+    hs = [ctl_h("c09::configure_all_types", "Sign::configure (any address, any supported type) against a conformant sign whose first-hello state and per-attempt result (received/failed) are symbolic: request acked before the chunk, chunk = the type's 16-byte block at offset 0, count = chunks since the request, then the query; up to 3 attempts", op="configure")]
+    for nm, p, ilen, w, h, tier in [
+        ("pages_p0", 0, 16, 12, 8, "quick"),
+        ("pages_p1_16", 1, 16, 12, 8, "quick"),
+        ("pages_p1_48_a1", 1, 48, 30, 7, "quick"),
+        ("pages_p2_16_a1", 2, 16, 12, 8, "quick"),
+        ("pages_p2_48_a1", 2, 48, 30, 7, "thorough"),
+        ("pages_p1_96_a1", 1, 96, 90, 7, "thorough"),
+        ("pages_p1_336_a1", 1, 336, 160, 16, "thorough"),
+        ("pages_p2_16", 2, 16, 12, 8, "thorough"),
+        ("pages_p1_48", 1, 48, 30, 7, "thorough"),
+        ("pages_p3_16", 3, 16, 12, 8, "thorough"),
+        ("pages_p1_32", 1, 32, 28, 8, "thorough"),
+        ("pages_p2_48", 2, 48, 30, 7, "thorough"),
+        ("pages_p1_96", 1, 96, 90, 7, "thorough"),
+        ("pages_p1_336", 1, 336, 160, 16, "thorough"),
+    ]:
+        hs.append(ctl_h("c09::" + nm, "Sign::send_pages with %d page(s) of %dx%d (%d bytes each, ALL bytes symbolic, also header/padding) against a conformant sign with symbolic per-attempt result: every chunk <=16 bytes, offsets 0,16,.. restarting per page, concatenation equals the page, count = chunks since the request, then query; %s" % (p, w, h, ilen, "first attempt only (retries are covered at the 16-byte size)" if nm.endswith("_a1") else "up to 3 attempts"), tier=tier, ilen=ilen, p=p, timeout=5400, mem=10 if ilen > 48 else 8, pages=p, page_bytes=ilen))
+    return Prop(
+        "C09",
+        ["Sign::configure", "Sign::send_pages", "Sign::send_data", "Sign::ensure_unconfigured", "Sign::send_message / send_message_expect_response", "sign::verify_response", "SignType::to_bytes", "Page::as_bytes"],
+        "configure for every supported type; send_pages with 0..2 pages of 16 bytes and 1 page of 48 bytes quick; 3x16, 1x32, 2x48, 1x96, 1x336 bytes thorough; page contents fully symbolic; all three attempts",
+        "pages larger than 336 bytes (in particular the 16-bit offset limit at 65536 bytes / 4096 chunks is not reached); more than 3 pages; pages of different sizes in one call",
+        CTL_STUBS,
+        CTL_ASSUME,
+        ["c09::"],
+        hs,
+    )
+
+
+def _c10():
+    hs = [
+        ctl_h("c10::configure", "Sign::configure against ARBITRARY replies at every step (silence, bus error, any report or ack from any address, unrelated messages): each message sent must be exactly the one the reference controller prescribes for the replies so far (incl. chunk contents); outcome class must match", op="configure"),
+        ctl_h("c10::configure_if_needed", "Sign::configure_if_needed, same adversary", tier="thorough", op="configure_if_needed"),
+        ctl_h("c10::shut_down", "Sign::shut_down, same adversary", op="shut_down"),
+        ctl_h("c10::show_loaded_page_k3", "Sign::show_loaded_page, same adversary; polling bounded to 3 trigger/in-progress reports", op="show_loaded_page", polls=3),
+        ctl_h("c10::load_next_page_k3", "Sign::load_next_page, same adversary; polling bounded to 3", op="load_next_page", polls=3),
+        ctl_h("c10::show_loaded_page_k6", "Sign::show_loaded_page, polling bounded to 6", tier="thorough", op="show_loaded_page", polls=6),
+        ctl_h("c10::load_next_page_k6", "Sign::load_next_page, polling bounded to 6", tier="thorough", op="load_next_page", polls=6),
+        ctl_h("c10::send_pages_p0", "Sign::send_pages with no page, same adversary", p=0, op="send_pages", pages=0),
+        ctl_h("c10::send_pages_p1_16", "Sign::send_pages with one 16-byte page (symbolic bytes), same adversary", op="send_pages", pages=1, page_bytes=16),
+        ctl_h("c10::send_pages_p1_48_a1", "Sign::send_pages with one 48-byte page (3 chunks), same adversary, conversations limited to the first transfer attempt", ilen=48, op="send_pages", pages=1, page_bytes=48, attempts=1),
+        ctl_h("c10::send_pages_p2_16_a1", "Sign::send_pages with two 16-byte pages, same adversary, first attempt only", p=2, op="send_pages", pages=2, page_bytes=16, attempts=1),
+        ctl_h("c10::send_pages_p1_48", "Sign::send_pages with one 48-byte page, same adversary", tier="thorough", ilen=48, op="send_pages", pages=1, page_bytes=48, timeout=5400),
+        ctl_h("c10::send_pages_p2_16", "Sign::send_pages with two 16-byte pages, same adversary", tier="thorough", p=2, op="send_pages", pages=2, page_bytes=16, timeout=5400),
+    ]
+    return Prop(
+        "C10",
+        ["Sign::{configure, configure_if_needed, send_pages, show_loaded_page, load_next_page, shut_down}", "Sign::{ensure_unconfigured, send_data, switch_page, send_message, send_message_expect_response}", "sign::verify_response"],
+        "every reply at every step is symbolic over: none, bus error, ReportState(any address, any of 13 states), AckOperation(any address, any of 6 operations), and three kinds of unrelated message (Hello, DataChunksSent, SendData); operations: configure, shut_down, show/load (polling <= 3), send_pages with 0 or 1 16-byte page quick; configure_if_needed, polling <= 6, 48-byte page, 2 pages thorough",
+        "polling loops longer than the bound; unrelated replies of the kinds not listed (the controller handles every non-report/non-ack reply in the same `_` arm); larger page lists",
+        CTL_STUBS,
+        CTL_ASSUME,
+        ["c10::"],
+        hs,
+    )
+
+
+def _c11():
+    hs = [
+        ctl_h("c11::configure", "Sign::configure against arbitrary replies; invariants only: success => own 'received' report concluded the final attempt; nothing sent after a disallowed reply or bus error; error class; <= 3 attempts; retry only after own 'failed'; own address on every addressed message", op="configure"),
+        ctl_h("c11::configure_if_needed", "Sign::configure_if_needed, same invariants (a foreign 'ready' report must not suppress configuration)", tier="thorough", op="configure_if_needed"),
+        ctl_h("c11::shut_down", "Sign::shut_down, same invariants", op="shut_down"),
+        ctl_h("c11::show_loaded_page_k3", "Sign::show_loaded_page (polling <= 3), same invariants", op="show_loaded_page", polls=3),
+        ctl_h("c11::load_next_page_k3", "Sign::load_next_page (polling <= 3), same invariants", op="load_next_page", polls=3),
+        ctl_h("c11::send_pages_p0", "Sign::send_pages with no page", p=0, op="send_pages", pages=0),
+        ctl_h("c11::send_pages_p1_16", "Sign::send_pages with one 16-byte page", op="send_pages", pages=1, page_bytes=16),
+        ctl_h("c11::send_pages_p1_48_a1", "Sign::send_pages with one 48-byte page (three chunks: a bad reply on a non-final chunk), conversations limited to the first attempt", ilen=48, op="send_pages", pages=1, page_bytes=48, attempts=1),
+        ctl_h("c11::send_pages_p2_16_a1", "Sign::send_pages with two 16-byte pages, first attempt only", p=2, op="send_pages", pages=2, page_bytes=16, attempts=1),
+        ctl_h("c11::send_pages_p1_48", "Sign::send_pages with one 48-byte page, all attempts", tier="thorough", ilen=48, op="send_pages", pages=1, page_bytes=48, timeout=5400),
+        ctl_h("c11::send_pages_p2_16", "Sign::send_pages with two 16-byte pages", tier="thorough", p=2, op="send_pages", pages=2, page_bytes=16, timeout=5400),
+    ]
+    return Prop(
+        "C11",
+        ["Sign::{configure, configure_if_needed, send_pages, show_loaded_page, load_next_page, shut_down} and their private helpers"],
+        "same adversary and bounds as C10 (every reply symbolic at every step); invariants instead of a message-by-message comparison",
+        "as C10",
+        CTL_STUBS,
+        CTL_ASSUME + ["'a reply the protocol does not allow at that point' is decided by the reference controller's transition table"],
+        ["c11::"],
+        hs,
+    )
+
+
+PROPS["C09"] = _c09()
+PROPS["C10"] = _c10()
+PROPS["C11"] = _c11()
+
+
+# ------------------------------------------------------------------------------------------- C15 / C16 / C18
+IO_ASSUME = COMMON_ASSUME + [
+    "streams are the harness-side symio::SymReader / SymWriter / SerPort (fixed tape, symbolic fragmentation, symbolic Interrupted placement, symbolic hard-failure index)",
+    "decoding of the line read uses the regex stand-in in contract mode (see C03 for the lemma that justifies it)",
+]
+IO_RULES = [("run_utf8_validation\\.1$", 2), ("run_utf8_validation", 6), ("from_ascii_bytes_radix", 6), memcmp(40)]
+
+
+def io_h(name, desc, tier="quick", unwind=34, timeout=900, mem=6, **params):
+    return H(name, desc, tier=tier, unwind=unwind, unwindset=IO_RULES, params=params, timeout=timeout, mem_gb=24, mem_expect=mem)
+
+
+def _c15():
+    hs = [
+        io_h("c15::read_frame_hello", "stream = literal 15-byte frame line + 3 SYMBOLIC stray bytes; greedy reader (hands out as many bytes as are requested): Frame::read consumes exactly the line, never asks for more than one byte, returns the frame", line=15),
+        io_h("c15::read_frame_second", "same for a 13-byte zero-data frame line (= the rest of a stream after a first frame was read: back-to-back frames)", line=13),
+        io_h("c15::read_garbage_empty_line", "literal empty line + 4 symbolic bytes (may contain line feeds): exactly 1 byte consumed, InvalidFrame carries the line", line=1),
+        io_h("c15::read_garbage_short", "literal 'hello' line + 4 symbolic bytes: exactly 6 bytes consumed, InvalidFrame carries exactly the line", line=6),
+        io_h("c15::read_garbage_bare_lf_frame", "a frame terminated by a bare LF + 3 symbolic bytes: consumed to the LF, rejected", line=12),
+        io_h("c15::read_hard_error_first", "valid 15-byte frame line; reader fails hard at call 0: FrameError::Io", fault="read@0", timeout=1500),
+        io_h("c15::read_hard_error_mid", "reader fails hard at call 7", fault="read@7", timeout=1500),
+        io_h("c15::read_hard_error_last", "reader fails hard at call 14", tier="thorough", fault="read@14", timeout=1500),
+        io_h("c15::write_fragmented_n2", "Frame::write of ANY frame with 2 data bytes (address, type, data symbolic) to a sink accepting 1..=n bytes per call (symbolic): delivered bytes = encoding + CRLF exactly once, in order", data_len=2, unwind=21),
+        io_h("c15::write_fragmented_n1", "Frame::write, 1 symbolic data byte, symbolic fragmentation", data_len=1, unwind=19),
+        io_h("c15::write_fragmented_n3", "Frame::write, 3 symbolic data bytes, symbolic fragmentation", tier="thorough", data_len=3, unwind=23, timeout=3000),
+        io_h("c15::write_hard_error_first", "Frame::write to a one-byte-per-call sink that fails hard at call 0: Err(Io), never Ok", fault="write@0", timeout=1500),
+        io_h("c15::write_hard_error_second", "sink fails hard at call 1 (after one byte was delivered)", fault="write@1", timeout=1500),
+    ]
+    return Prop(
+        "C15",
+        ["Frame::read::<SymReader>", "Frame::write::<SymWriter>", "std BufReader::with_capacity / read_until / Write::write_all (executed as compiled)", "Frame::from_bytes", "Frame::to_bytes_with_newline"],
+        "reads: literal lines (valid frames of 15 and 13 bytes - one read each, back-to-back by composition over the stream position -, empty line, short garbage, bare-LF frame) followed by SYMBOLIC stray bytes, greedy reader, hard failure at calls 0/7/14; writes: any frame with 1, 2 (quick) or 3 (thorough) symbolic data bytes, every fragmentation of the sink, hard failure at call 0 or 1",
+        "symbolic LINE contents (std's read_until forks at every byte that might be a line feed and exhausts CBMC; the line is therefore literal and only what follows it is symbolic); Interrupted reads/writes (std's retry loop together with io::Error's bit-packed representation did not finish under CBMC within the cap); longer frames",
+        ["regex crate -> stand-in (contract mode)"],
+        IO_ASSUME,
+        ["c15::"],
+        hs,
+        needs_regex=True,
+    )
+
+
+SER_STUBS = ["regex crate -> stand-in (contract mode)", "std::thread::sleep -> symio::fake_sleep (virtual clock: records the requested duration and its position among the port's I/O events)"]
+
+
+TAPE_DESC = ["state %d from address %s" % (i, "0x0003" if i % 2 == 0 else "0xBEEF") for i in range(13)] + ["ack StartReset from 0x0003", "unknown frame type 9"]
+SER_PAIRS = [(k, 13) for k in (0, 1, 2, 3, 5, 6, 7, 10, 11, 12, 13, 14, 15)] + [(2, t) for t in list(range(13)) + [14]] + [(1, 8), (12, 10)]
+SER_QUICK = {(0, 13), (1, 13), (2, 13), (10, 13), (15, 13), (6, 13), (7, 13), (2, 0), (2, 8), (2, 10), (2, 11), (2, 14), (1, 8), (12, 10)}
+
+
+OPS = ["ReceiveConfig", "ReceivePixels", "ShowLoadedPage", "LoadNextPage", "StartReset", "FinishReset"]
+
+
+def KIND_NAME(k):
+    return KINDS[k] if k < 8 else "RequestOperation(%s)" % OPS[k - 10]
+
+
+def _ser_plain(prefix, what):
+    hs = []
+    for k, t in SER_PAIRS:
+        hs.append(
+            io_h(
+                "c16::%s_k%d_t%d" % (prefix, k, t),
+                "SerialSignBus<SerPort>::process_message for a %s message (parameters symbolic) with the literal reply line '%s' + 2 symbolic stray bytes waiting on the port: %s" % (KIND_NAME(k), TAPE_DESC[t], what),
+                tier="quick" if (k, t) in SER_QUICK else "thorough",
+                kind=KIND_NAME(k),
+                reply=TAPE_DESC[t],
+            )
+        )
+    return hs
+
+
+def _c16():
+    hs = _ser_plain("c16", "bytes written = the message's frame encoding + CRLF and nothing else; exactly one line read iff the message is a hello / state query / operation request, else no read at all; reply = decoding of the line")
+    hs.append(io_h("c16::c16_garbage_reply", "QueryState answered by the malformed line 'hello': Err, exactly one line read", message="QueryState"))
+    for l, t in [(1, "quick"), (4, "thorough"), (15, "thorough"), (16, "quick")]:
+        hs.append(io_h("c16::c16_data%d" % l, "data chunk of %d symbolic bytes: exactly its encoding + CRLF written, nothing read, Ok(None)" % l, tier=t, unwind=max(34, 2 * l + 20), data_len=l))
+    return Prop(
+        "C16",
+        ["SerialSignBus::<SerPort>::process_message", "serial_sign_bus::response_expected", "Frame::write", "Frame::read", "Message::from(Frame)", "Frame::from(Message)"],
+        "every message kind (one harness per kind, parameters symbolic) against an acknowledgement line; a state query against 15 literal reply lines (13 states from two addresses, an ack, an unknown frame); data chunks of 1, 16 (quick) and 4, 15 (thorough) symbolic bytes; malformed reply line",
+        "symbolic reply LINES and symbolic message KINDS in one query (both make buffer lengths symbolic, which CBMC cannot handle here); write/read failures through the serial bus (the conversion of an io::Error inside process_message did not finish under CBMC within the cap; failures are covered at the Frame::read / Frame::write level by C15)",
+        SER_STUBS,
+        IO_ASSUME + ["expected wire text = reference encoding of Frame::from(message) (the message->frame table is C04/C05's subject)"],
+        ["c16::c16_"],
+        hs,
+        needs_regex=True,
+    )
+
+
+def _c18():
+    hs = _ser_plain("c18", "a pause of >= 100 ms after the read iff the reply is a page-load / page-show in-progress report; otherwise no sleep call at all")
+    for l, t in [(1, "quick"), (4, "thorough"), (15, "quick"), (16, "quick")]:
+        hs.append(io_h("c16::c18_data%d" % l, "data chunk of %d symbolic bytes: exactly one pause of >= 30 ms, placed after the write and before returning" % l, tier=t, unwind=max(34, 2 * l + 20), data_len=l))
+    return Prop(
+        "C18",
+        ["SerialSignBus::<SerPort>::process_message", "serial_sign_bus::{delay_after_send, delay_after_receive}"],
+        "every message kind against an acknowledgement; a state query (and a hello / operation request) against all 13 state reports, an ack and an unknown frame; data chunks of 1, 15, 16 (quick) and 4 (thorough) bytes",
+        "real elapsed time (the claim is about the delays requested from thread::sleep and their position relative to the port I/O)",
+        SER_STUBS,
+        IO_ASSUME + ["thread::sleep(d) blocks for at least d and nothing else in process_message spends time deliberately"],
+        ["c16::c18_"],
+        hs,
+        needs_regex=True,
+    )
+
+
+PROPS["C15"] = _c15()
+PROPS["C16"] = _c16()
+PROPS["C18"] = _c18()
